@@ -369,7 +369,6 @@ C28_CONTRACTS = [SetOccC, IMul, SaneC, Reorder]
 ASSUMPTIONS = [
     'python ints are mathematical integers; numpy integer arrays do not overflow',
     'inner lists of chemorder are distinct objects (no aliasing between rows): checked syntactically -- every assignment to self.chemorder in class Supercell must be a list comprehension / fresh list / the saved previous value',
-    'subscripts are required to be in [0, len): negative wrap-around indexing is treated as an error the code must not rely on',
     'reorder: the exit value of the ghost field g_pos is chosen (the listed-clause of WF is stated existentially there); WF with the ghost follows by choice',
 ]
 TRUSTED = [
